@@ -3,7 +3,8 @@
    ResourceManager (and of the consumers collection.Cache.Take, cacheNode.Take) may
    observe, phrased only over harness-visible events:
 
-     callStart(c,k)   logged before the library is invoked   (c = unique call id)
+     callStart(c,o,k) logged before the library is invoked   (c = unique call id, o = the object -
+                      SingleFlight / LockedCalls / ResourceManager / cache instance - it is invoked on)
      fnStart(c)       first statement of the function supplied by call c
      fnEnd(c,v,err)   last statement of that function (v = value, err = error code, 0 = nil)
      fnPanic(c)       the supplied function panics
@@ -12,7 +13,16 @@
                       at a moment when no goroutine of the experiment could run
 
    An execution is identified by the call that runs it (its leading call).  A call runs
-   its function at most once.  `mode` selects the component:
+   its function at most once.
+
+   Objects.  Every clause of the property is a promise of ONE object about the keys handed to
+   that object: "the key" of a call is the pair <<object, key string>> (KeyOf).  Two objects that
+   are given the same key string are as unrelated as two different keys of one object: their
+   executions may overlap, their calls never wait for each other (CanBlocked), a caller is never
+   handed the result of an execution that was started through another object (Shared), and a
+   ResourceManager's "same instance for everyone" / "created successfully at most once" is
+   about the resources of that manager (cached is indexed by <<object, key>>; Inject / Del act
+   on one object).  `mode` selects the component:
      "sf"   SingleFlight.Do/DoEx     "lc"  LockedCalls.Do
      "rm"   ResourceManager.GetResource (fn = create)
      "take" a cache in front of a SingleFlight (fn = fetch/query; successful results are cached)
@@ -31,19 +41,19 @@ EXTENDS Integers, FiniteSets, Sequences, TLC
 
 VARIABLES
   mode,      \* "sf" | "lc" | "rm" | "take"
-  open,      \* open call |-> [k |-> key, c0 |-> value cached for k when the call started (0 = none)]
+  open,      \* open call |-> [o |-> object, k |-> key, c0 |-> value cached for <<o,k>> when the call started (0 = none)]
   ran,       \* open calls that have started their function
   running,   \* calls whose function is executing now
   result,    \* finished execution (= leading call) still of interest |-> [r |-> [v, err], k |-> its key]
   eligible,  \* open call c |-> executions whose leading call was open at some moment of c's call
-  cached     \* key |-> value held by the cache / resource map ("rm", "take")
+  cached     \* <<object, key>> |-> value held by that object's cache / resource map ("rm", "take")
 
 pvars == <<mode, open, ran, running, result, eligible, cached>>
 
 Res(v, e) == [v |-> v, err |-> e]
 Panic == Res(-1, -1)                       \* "result" of an execution that panicked
 Calls == DOMAIN open
-KeyOf(c) == open[c].k
+KeyOf(c) == <<open[c].o, open[c].k>>       \* the key of a call: per object
 Restrict(f, S) == [x \in S |-> f[x]]
 Excl == mode \in {"sf", "lc", "take"}      \* components that promise per-key exclusion of executions
 
@@ -56,9 +66,9 @@ PReset(m) ==
   /\ result' = <<>> /\ eligible' = <<>> /\ cached' = <<>>
 
 ---------------------------------------------------------------------------
-CanCallStart(c, k) == c \notin Calls /\ c \notin DOMAIN result
-PCallStart(c, k) ==
-  /\ open' = (c :> [k |-> k, c0 |-> IF k \in DOMAIN cached THEN cached[k] ELSE 0]) @@ open
+CanCallStart(c, o, k) == c \notin Calls /\ c \notin DOMAIN result
+PCallStart(c, o, k) ==
+  /\ open' = (c :> [o |-> o, k |-> k, c0 |-> IF <<o, k>> \in DOMAIN cached THEN cached[<<o, k>>] ELSE 0]) @@ open
   /\ eligible' = (c :> ran) @@ eligible          \* ran \subseteq Calls: executions led by calls open now
   /\ UNCHANGED <<mode, ran, running, result, cached>>
 
@@ -119,19 +129,20 @@ PCallEnd(c) == PClose(c)
 CanCallPanic(c) == c \in Calls /\ c \notin running /\ Own(c, Panic)
 PCallPanic(c) == PClose(c)
 
-\* a call may be parked inside the library only behind an execution for the SAME key whose leading
+\* a call may be parked inside the library only behind an execution for the SAME key OF THE SAME OBJECT whose leading
 \* call is still open (at rest that execution is running - unless the harness holds its leader at
 \* a hook point between fn's return and wg.Done)
 CanBlocked(c) ==
   /\ c \in Calls /\ c \notin running
   /\ \E x \in ran : x # c /\ KeyOf(x) = KeyOf(c)
 
-\* cache / resource-map maintenance, performed by the harness only while no call on k is open
-CanDel(k) == \A c \in Calls : KeyOf(c) # k
-PDel(k) == /\ cached' = Restrict(cached, DOMAIN cached \ {k})
-           /\ UNCHANGED <<mode, open, ran, running, result, eligible>>
-PInject(k, v) == /\ cached' = (k :> v) @@ cached
-                 /\ UNCHANGED <<mode, open, ran, running, result, eligible>>
+\* cache / resource-map maintenance of object o, performed by the harness only while no call on
+\* <<o,k>> is open (calls on the same key string of ANOTHER object may be open: they are unaffected)
+CanDel(o, k) == \A c \in Calls : KeyOf(c) # <<o, k>>
+PDel(o, k) == /\ cached' = Restrict(cached, DOMAIN cached \ {<<o, k>>})
+              /\ UNCHANGED <<mode, open, ran, running, result, eligible>>
+PInject(o, k, v) == /\ cached' = (<<o, k>> :> v) @@ cached
+                    /\ UNCHANGED <<mode, open, ran, running, result, eligible>>
 
 ---------------------------------------------------------------------------
 \* sanity invariants of the abstract machine (hold by construction)
